@@ -143,13 +143,13 @@ impl Report {
             ));
         }
         for (f, (n, what)) in known_hits.iter() {
-            println!(
+            crate::util::say(&format!(
                 "KNOWN-FINDING: property={} finding={} occurrences={} {}",
                 self.prop, f, n, what
-            );
+            ));
         }
         for l in &lines {
-            println!("{}", l);
+            crate::util::say(l);
         }
 
         // vacuity floors
@@ -240,7 +240,7 @@ impl Report {
         )
         .expect("evidence file written");
 
-        println!(
+        crate::util::say(&format!(
             "{} {}: states={} transitions={} histories={} distinct_states={} outcomes={} violations={} known={} wall={:.1}s exhaustive={}",
             self.prop,
             self.tier,
@@ -253,7 +253,7 @@ impl Report {
             known_hits.values().map(|v| v.0).sum::<u64>(),
             wall,
             exhaustive
-        );
+        ));
         if machinery {
             for v in self.out.violations.iter().filter(|v| v.kind.starts_with("machinery:")) {
                 eprintln!("MACHINERY ERROR {}: {} history={}", v.kind, v.detail, v.history);
